@@ -310,6 +310,22 @@ def r09_1(q, R, spec, roles):
                 want_s = T.show(want_v)
             R.inst(rid, "cell:%s/%s" % (label, cell), ok, sp=fb["sp"], expect=want_s, got=T.show(got))
 
+    # ---- the header constructor the merged namespaces go through refuses nothing but empty names (seed C09-8: a uniqueness check
+    #      turns the join of (s,a) with (s,a') where a and a' carry the same name into an error)
+    ctor = [b for b in q.bodies if b.get("name") == "try_from" and "Namespaces" in (b.get("impl_ty") or "") and isinstance(b.get("body"), dict)
+            and any("[alloc::string::String; N]" in (t or "") for t in (b.get("inputs") or []))]
+    if R.anchor(rid, "impl TryFrom<[String; N]> for Namespaces", len(ctor) == 1):
+        cb = ctor[0]
+        guards = []
+        for n in H.walk(cb["body"]):
+            if n.get("k") == "if" and "else" not in n and H.is_err_exit(n["then"]):
+                guards.append(H.render(n["cond"])[:100])
+            elif n.get("k") == "ret" and H.is_err_exit(n):
+                pass
+        other = [g for g in guards if "is_empty" not in g]
+        R.inst(rid, "namespaces-constructor:refuses-only-empty-names", len(guards) >= 1 and not other, sp=cb["sp"],
+               expect="the only refusal is `any name is empty`", got=guards,
+               detail="merge builds the (s,a,b) header through this constructor; any further refusal makes a documented join an error")
     # ---- Combination::map
     f = T.sym("f")
     for label, fb in _labels("Combination::map", F["Combination::map"]):
